@@ -3291,6 +3291,23 @@ func activeSegmentStateGroup(c *Ctx, rule string) {
 						activated = true
 					}
 				}
+				// or hands the segment to a same-package helper that activates its parameter
+				for _, h := range Calls(f, false, func(*ssa.CallCommon) bool { return true }) {
+					cal := h.Common().StaticCallee()
+					if cal == nil || cal.Blocks == nil || cal.Pkg != f.Pkg {
+						continue
+					}
+					for i, arg := range h.Common().Args {
+						if i >= len(cal.Params) || !sameSegment(arg, v) {
+							continue
+						}
+						for _, a := range Calls(cal, false, Named("vlog.(*segment).activate")) {
+							if len(a.Common().Args) == 1 && Unwrap(a.Common().Args[0]) == cal.Params[i] {
+								activated = true
+							}
+						}
+					}
+				}
 				c.Decide(activated, rule, k, st.Pos(), 2, "the segment is reactivated before it is appended to", FuncName(f)+" makes an existing (sealed) segment the active one without activate(): its readers only pin it and take no store lock, so the next append grows and remaps the file under a reader that still holds mapped bytes")
 			}
 		}
